@@ -117,7 +117,7 @@ fn edit_nth(t: &mut TxDef, r: &mut Rng, pred: &dyn Fn(&E) -> bool, edit: &mut dy
 
 // ------------------------------------------------------------------ mutations
 
-const KINDS: [&str; 17] = [
+const KINDS: [&str; 18] = [
     "drop-field",
     "dup-field",
     "rename-field",
@@ -135,6 +135,7 @@ const KINDS: [&str; 17] = [
     "prop-on-local",
     "wrap-call",
     "none",
+    "cross-kind-name",
 ];
 
 fn names_of_other_kinds(p: &Program, t: &TxDef) -> Vec<String> {
@@ -276,6 +277,20 @@ fn mutate(r: &mut Rng, p: &mut Program, ti: usize) -> &'static str {
         "second-tx" => {
             // handled by the caller (needs the whole program)
             false
+        }
+        "cross-kind-name" => {
+            // a parameter spelled like a party or an environment key up to case (the three end up under lower-cased
+            // keys of one kind in the IR; the language keeps them apart by kind)
+            let mut pool: Vec<String> = parties.clone();
+            pool.extend(pc.env.iter().map(|e| e.0.clone()));
+            let victim = r.pick(&pool).clone();
+            let name = match r.below(3) {
+                0 => victim.to_lowercase(),
+                1 => victim.to_uppercase(),
+                _ => victim.clone(),
+            };
+            t.params.push((name, Ty::Int));
+            true
         }
         "shadow" => {
             // a local, an input or an output named like something else
